@@ -198,7 +198,7 @@ func observeFeature(f *geojson.Feature, pr *problems) obsFeature {
 	case nil:
 	case string:
 		parts := strings.Split(id, "/")
-		ok := len(parts) == 2 && typeCode[parts[0]] != 0
+		ok := len(parts) == 2 && (typeCode[parts[0]] != 0 || parts[0] == "")
 		var ref int64
 		if ok {
 			var err error
@@ -206,6 +206,11 @@ func observeFeature(f *geojson.Feature, pr *problems) obsFeature {
 			ok = err == nil
 		}
 		if !ok {
+			pr.add("feature id %q is not type/ref", id)
+		} else if parts[0] == "" {
+			// "/5": the type "" FeatureID.Type() answers for unknown type bits; observed as it is
+			// (code 4) so that the model can be compared, and reported: not an element type
+			o.IDType, o.IDRef = 4, ref
 			pr.add("feature id %q is not type/ref", id)
 		} else {
 			o.IDType, o.IDRef = typeCode[parts[0]], ref
@@ -220,6 +225,9 @@ func observeFeature(f *geojson.Feature, pr *problems) obsFeature {
 	}
 	if s, ok := f.Properties["type"].(string); ok && typeCode[s] != 0 {
 		o.Type = typeCode[s]
+	} else if ok && s == "" {
+		o.Type = 0 // observed as it is; not an element type
+		pr.add("properties.type is the empty string")
 	} else {
 		pr.add("properties.type missing or unknown: %v", f.Properties["type"])
 		o.Type = 1
@@ -570,6 +578,66 @@ func inKnownClass(o *osm.OSM) bool {
 	return false
 }
 
+// packedOK mirrors Spec.packed_ok (judged in Coq, code 3): the places where Convert goes through
+// the packed osm.FeatureID (40 bits of ref under a type code) lose nothing on this input:
+// (1) every multipolygon/boundary relation and each of its outer way members has an id in
+// [0,2^40) (buildPolygon reads type and ref back out of tagObject.FeatureID()); (2) no member
+// entry packs to the FeatureID of a different element of the data set (ctx.relationMember is
+// keyed by packed ids).  Its negation is the known-finding class polygon-id-outside-packed-range.
+const knownPacked = "polygon-id-outside-packed-range"
+
+func in40(v int64) bool { return v >= 0 && v < 1<<40 }
+
+func packedFID(t int, id int64) osm.FeatureID {
+	switch t {
+	case 1:
+		return osm.NodeID(id).FeatureID()
+	case 2:
+		return osm.WayID(id).FeatureID()
+	default:
+		return osm.RelationID(id).FeatureID()
+	}
+}
+
+func packedOK(o *osm.OSM) bool {
+	type key [2]int64
+	var elems []key
+	for _, n := range o.Nodes {
+		elems = append(elems, key{1, int64(n.ID)})
+	}
+	for _, w := range o.Ways {
+		elems = append(elems, key{2, int64(w.ID)})
+	}
+	members := map[osm.FeatureID][]key{}
+	for _, r := range o.Relations {
+		elems = append(elems, key{3, int64(r.ID)})
+		tt := r.Tags.Find("type")
+		mp := tt == "multipolygon" || tt == "boundary"
+		if mp && !in40(int64(r.ID)) {
+			return false
+		}
+		for _, m := range r.Members {
+			if m.Type == osm.TypeWay && m.Role == "outer" {
+				if mp && !in40(m.Ref) {
+					return false
+				}
+				elems = append(elems, key{2, m.Ref})
+			}
+			k := key{int64(typeNum[m.Type]), m.Ref}
+			f := packedFID(typeNum[m.Type], m.Ref)
+			members[f] = append(members[f], k)
+		}
+	}
+	for _, e := range elems {
+		for _, m := range members[packedFID(int(e[0]), e[1])] {
+			if m != e {
+				return false
+			}
+		}
+	}
+	return true
+}
+
 // ---------- description (replay text) ----------
 
 func tagsDesc(t osm.Tags) [][2]string {
@@ -834,7 +902,13 @@ func (s *scene) encode(class string) *wire.Case {
 		c.Bool(s.relPoly[ri]).Bool(s.relAI[ri])
 	}
 	c.Bool(s.unchanged)
-	c.Bool(inKnownClass(o)) // judged in Coq against Spec.adopts (code 3)
+	kc := 0 // judged in Coq against Spec.packed_ok / Spec.adopts (code 3)
+	if !packedOK(o) {
+		kc = 2
+	} else if inKnownClass(o) {
+		kc = 1
+	}
+	c.Int(int64(kc))
 	c.Len(len(s.runs))
 	for _, r := range s.runs {
 		c.Int(int64(r.Bits)).Bool(r.Same)
@@ -845,10 +919,12 @@ func (s *scene) encode(class string) *wire.Case {
 	}
 	c.Desc = map[string]interface{}{"input": describeInput(o, s.areas), "input_unchanged": s.unchanged, "runs": s.runs, "call_order": s.order, "coordinates": s.emb,
 		"harness_problems": []string(s.problems)}
-	if inKnownClass(o) {
+	if kc == 2 {
+		c.Known = knownPacked
+	} else if kc == 1 {
 		c.Known = knownClass
 	}
-	if len(s.runs) > 0 {
+	if len(s.runs) > 0 && kc != 2 {
 		// C17_duplicate_feature_iff: the class is exact (an input in the class without duplicate
 		// ids, or duplicate ids outside the class, is reported as a harness problem)
 		dup := false
@@ -1593,22 +1669,30 @@ func randomSceneParts(rng *rand.Rand, parts int) (*osm.OSM, string) {
 // keeps of a ref.  Only elements whose identity the conversion takes from the element itself
 // are renumbered: nodes, ways and relations that are NOT members of a relation, and relations
 // that are not of type multipolygon/boundary (buildPolygon reads type and ref back out of the
-// packed FeatureID, and the membership map is keyed by packed FeatureIDs, so there the model's
-// exact (type, ref) keys and the packing agree only on ids in [0, 2^40): domain assumption of
-// the check, see notes/C17.md).  References to a renumbered node (way nodes, annotated member
+// packed FeatureID, and the membership map is keyed by packed FeatureIDs: renumbering those is
+// the deep variant below, which lands in the known-finding class).  References to a renumbered node (way nodes, annotated member
 // nodes) follow.  The renumbering is dropped when two different (type, id) keys of the scene
 // would pack to the same FeatureID.  Reports whether ids were changed.
-func extremeIDs(o *osm.OSM, rng *rand.Rand) bool {
+//
+// deep = true lifts both restrictions: members (their refs follow) and multipolygon/boundary
+// relations are renumbered too and clashes are allowed.  Such a scene is usually in the
+// known-finding class polygon-id-outside-packed-range (packedOK decides, from the input alone);
+// the model follows the packing there, so model = implementation is still judged exactly.
+func extremeIDs(o *osm.OSM, rng *rand.Rand, deep bool) bool {
 	member := map[[2]int64]bool{}
-	for _, r := range o.Relations {
-		for _, m := range r.Members {
-			member[[2]int64{int64(typeNum[m.Type]), m.Ref}] = true
+	if !deep {
+		for _, r := range o.Relations {
+			for _, m := range r.Members {
+				member[[2]int64{int64(typeNum[m.Type]), m.Ref}] = true
+			}
 		}
 	}
 	k := int64(0)
 	pick := func() int64 {
 		k++
-		switch rng.Intn(8) {
+		switch rng.Intn(9) {
+		case 8:
+			return int64(1)<<44 + k // sets a type bit: node 2^44+k packs like node k, way 2^44+k like relation k
 		case 0:
 			return -k
 		case 1:
@@ -1646,7 +1730,7 @@ func extremeIDs(o *osm.OSM, rng *rand.Rand) bool {
 	relNew := map[osm.RelationID]osm.RelationID{}
 	for _, r := range o.Relations {
 		t := r.Tags.Find("type")
-		if !member[[2]int64{3, int64(r.ID)}] && t != "multipolygon" && t != "boundary" && rng.Intn(2) == 0 {
+		if !member[[2]int64{3, int64(r.ID)}] && (deep || (t != "multipolygon" && t != "boundary")) && rng.Intn(2) == 0 {
 			if _, dup := relNew[r.ID]; !dup {
 				relNew[r.ID] = osm.RelationID(pick())
 			}
@@ -1710,8 +1794,29 @@ func extremeIDs(o *osm.OSM, rng *rand.Rand) bool {
 			packed[f] = key
 		}
 	}
-	if clash {
+	if clash && !deep {
 		return false
+	}
+	if deep {
+		for _, r := range o.Relations {
+			for i := range r.Members {
+				m := &r.Members[i]
+				switch m.Type {
+				case osm.TypeNode:
+					if v, ok := nodeNew[osm.NodeID(m.Ref)]; ok {
+						m.Ref = int64(v)
+					}
+				case osm.TypeWay:
+					if v, ok := wayNew[osm.WayID(m.Ref)]; ok {
+						m.Ref = int64(v)
+					}
+				case osm.TypeRelation:
+					if v, ok := relNew[osm.RelationID(m.Ref)]; ok {
+						m.Ref = int64(v)
+					}
+				}
+			}
+		}
 	}
 	for _, n := range o.Nodes {
 		if v, ok := nodeNew[n.ID]; ok {
@@ -1940,6 +2045,43 @@ func corpus() []*osm.OSM {
 		x.Relations[0].ID, x.Relations[1].ID, x.Relations[2].ID = -3, osm.RelationID(B*2+1), -(1 << 31)
 		out = append(out, x)
 	}
+	// ---- known finding polygon-id-outside-packed-range: the Coq witnesses and directed probes ----
+	// polyNegativeID (Examples.d_polyneg): a tagged multipolygon relation with id -1 -> type "", id 2^40-1
+	out = append(out, &osm.OSM{
+		Nodes: nodesAt([3]int{1, 1, 1}, [3]int{2, 5, 1}, [3]int{3, 5, 5}, [3]int{4, 1, 5}),
+		Ways:  osm.Ways{wayIDs(10, nil, 1, 2, 3, 4, 1)},
+		Relations: osm.Relations{{ID: -1, Tags: tagsOf("type", "multipolygon", "natural", "water"),
+			Members: osm.Members{{Type: osm.TypeWay, Ref: 10, Role: "outer"}}}},
+	})
+	// keyClash (Examples.d_clash): way -1 is a route member; node -1, an untagged node of that way,
+	// is not a member of anything but packs to the same FeatureID
+	out = append(out, &osm.OSM{
+		Nodes:     nodesAt([3]int{1, 1, 1}, [3]int{2, 5, 1}, [3]int{-1, 9, 9}),
+		Ways:      osm.Ways{wayIDs(-1, nil, 1, 2, -1)},
+		Relations: osm.Relations{{ID: 5, Tags: tagsOf("type", "route"), Members: osm.Members{{Type: osm.TypeWay, Ref: -1, Role: "forward"}}}},
+	})
+	// a boundary relation with id 2^40+5 -> "/5"; an old-style relation adopting way -1 -> "/2^40-1";
+	// an old-style relation adopting way 2^44+5 -> "relation/5"
+	out = append(out, &osm.OSM{
+		Nodes: nodesAt([3]int{1, 1, 1}, [3]int{2, 5, 1}, [3]int{3, 5, 5}, [3]int{4, 1, 5}),
+		Ways:  osm.Ways{wayIDs(10, nil, 1, 2, 3, 4, 1)},
+		Relations: osm.Relations{{ID: 1<<40 + 5, Version: 2, Tags: tagsOf("type", "boundary", "name", "x"),
+			Members: osm.Members{{Type: osm.TypeWay, Ref: 10, Role: "outer"}}}},
+	})
+	for _, wid := range []int{-1, 1<<44 + 5} {
+		out = append(out, &osm.OSM{
+			Nodes: nodesAt([3]int{1, 1, 1}, [3]int{2, 5, 1}, [3]int{3, 5, 5}, [3]int{4, 1, 5}),
+			Ways:  osm.Ways{wayIDs(wid, tagsOf("building", "yes"), 1, 2, 3, 4, 1)},
+			Relations: osm.Relations{{ID: 7, Tags: tagsOf("type", "multipolygon"),
+				Members: osm.Members{{Type: osm.TypeWay, Ref: int64(wid), Role: "outer"}}}},
+		})
+	}
+	// member node 2 is in range; node 2^44+2, an untagged way node and no member, packs like node 2
+	out = append(out, &osm.OSM{
+		Nodes:     nodesAt([3]int{1, 1, 1}, [3]int{2, 5, 1}, [3]int{3, 5, 5}, [3]int{1<<44 + 2, 1, 5}),
+		Ways:      osm.Ways{wayIDs(10, tagsOf("highway", "path"), 1, 2, 3, 1<<44+2)},
+		Relations: osm.Relations{{ID: 5, Tags: tagsOf("type", "site"), Members: osm.Members{{Type: osm.TypeNode, Ref: 2, Role: "stop"}}}},
+	})
 	return out
 }
 
@@ -2021,7 +2163,7 @@ func main() {
 	rng := wire.Rng(a.Seed)
 	callRng = rand.New(rand.NewSource(a.Seed*7919 + 17))
 	w := wire.NewWriter("C17", a.Seed, a.Tier)
-	w.Rule = "data sets: fixed corpus, then random scenes of 1-3 parts (L loose nodes/ways/other relations, R route chains cut, reversed, shuffled, with gaps and missing nodes/ways, M multipolygon/boundary relations over rectangle rings cut into 1-3 ways with inner rings, broken rings, missing/annotated member ways, own tags or none; X in one scene of three some nodes/ways/route and other relations that are not relation members get negative ids or ids >= 2^40); each data set converted under 16 option sets twice. distinct = distinct token streams; trivial = no feature in the baseline."
+	w.Rule = "data sets: fixed corpus, then random scenes of 1-3 parts (L loose nodes/ways/other relations, R route chains cut, reversed, shuffled, with gaps and missing nodes/ways, M multipolygon/boundary relations over rectangle rings cut into 1-3 ways with inner rings, broken rings, missing/annotated member ways, own tags or none; X in one scene of three some nodes/ways/route and other relations that are not relation members get negative ids or ids >= 2^40; Y in one scene of nine any element, members and multipolygon relations included, gets such an id: known-finding class polygon-id-outside-packed-range when packedOK says so); each data set converted under 16 option sets twice. distinct = distinct token streams; trivial = no feature in the baseline."
 	n := 150
 	if a.Tier == "thorough" {
 		n = 1500
@@ -2074,9 +2216,17 @@ func main() {
 	}
 	for i := 0; i < n; i++ {
 		o, class := randomScene(rng)
-		if rng.Intn(3) == 0 && extremeIDs(o, rng) {
-			class += "X"
-			w.Count("ids-negative-or-beyond-40-bits")
+		switch x := rng.Intn(9); {
+		case x < 3:
+			if extremeIDs(o, rng, false) {
+				class += "X"
+				w.Count("ids-negative-or-beyond-40-bits")
+			}
+		case x == 3:
+			if extremeIDs(o, rng, true) {
+				class += "Y"
+				w.Count("ids-of-members-and-polygon-relations-too")
+			}
 		}
 		add(o, class)
 		if a.Tier == "thorough" && i%125 == 60 {
